@@ -132,7 +132,9 @@ func cmdCheck(args []string) int {
 		for i := 0; i < 2; i++ {
 			c2 := engine.NewCollector()
 			if err := safeReplay(chk, raw, c2); err != nil {
-				engine.Fatalf("replay of %s failed: %v", v.Sig, err)
+				fmt.Printf("replay of %s failed: %v\n", v.Sig, err)
+				ok = false
+				break
 			}
 			vs, _ := c2.All()
 			found := false
@@ -317,6 +319,10 @@ func cmdReplay(args []string) int {
 	}
 	col := engine.NewCollector()
 	if err := safeReplay(chk, rf.Case, col); err != nil {
+		if strings.Contains(err.Error(), "choice points") {
+			fmt.Printf("replay: the execution took a different course than the recorded one (%v): the recorded violation does not occur on this tree\n", err)
+			return 0
+		}
 		engine.Fatalf("%v", err)
 	}
 	vs, _ := col.All()
